@@ -640,6 +640,53 @@ class Extractor:
             raise ExtractError('duplicate clause label %s' % c.label)
         self.clauses[c.label] = dict(own=c.own, dep=c.dep, text=c.text.strip(), fn=path, kind=kind, module=module)
 
+    # ---- G2: spec_size / spec_accepts / spec_decode of a ParseAt impl from the ABI layout table
+    def gen_abi_impl(self, name):
+        if not hasattr(self, '_abi'):
+            self._abi = tomllib.load(open(os.path.join(self.spec.dir, 'abi_layout.toml'), 'rb'))
+        if name not in self._abi: raise ExtractError('abi_layout: no entry %s' % name)
+        L = self._abi[name]
+        def disk(cls):
+            return L.get(cls) or L['both']
+        def dval(row):
+            fname, off, w, k = row
+            if k == 'u': return '(fld(little, d, b + %d, %d) as u%d)' % (off, w, 8 * w)
+            return '(sfld(little, d, b + %d, %d) as i%d)' % (off, w, 8 * w)
+        def subst(expr, rows):
+            for r in sorted(rows, key=lambda r: -len(r[0])):
+                expr = expr.replace('$' + r[0], dval(r))
+            if '$' in expr: raise ExtractError('abi_layout %s: unresolved field in %r' % (name, expr))
+            return expr
+        def decode(cls):
+            rows = disk(cls)
+            if L.get('prim'):
+                return dval(rows[0])
+            ex = L.get('expr', {}).get(cls, {})
+            fields = []
+            for fname, ty in L['native']:
+                if fname in ex:
+                    e = subst(ex[fname], rows)
+                else:
+                    row = [r for r in rows if r[0] == fname]
+                    if not row: raise ExtractError('abi_layout %s/%s: native field %s has no on-disk field' % (name, cls, fname))
+                    dty = ('u%d' if row[0][3] == 'u' else 'i%d') % (8 * row[0][2])
+                    e = dval(row[0]) if dty == ty else '(%s as %s)' % (dval(row[0]), ty)
+                fields.append((fname, e))
+            if L.get('tuple'):
+                return '%s(%s)' % (name, ', '.join(e for _, e in fields))
+            return '%s { %s }' % (name, ', '.join('%s: %s' % fe for fe in fields))
+        def accepts(cls):
+            a = L.get('accepts')
+            if not a: return 'true'
+            return subst(a, disk(cls))
+        out = []
+        out.append('open spec fn spec_size(class: Class) -> nat { match class { Class::ELF32 => %d, Class::ELF64 => %d } }' % (L['size']['ELF32'], L['size']['ELF64']))
+        out.append('proof fn lemma_size_pos(class: Class) {}')
+        vis = 'closed' if L.get('closed') else 'open'
+        out.append(vis + ' spec fn spec_accepts(little: bool, class: Class, d: Seq<u8>, b: int) -> bool { match class { Class::ELF32 => %s, Class::ELF64 => %s } }' % (accepts('ELF32'), accepts('ELF64')))
+        out.append(vis + ' spec fn spec_decode(little: bool, class: Class, d: Seq<u8>, b: int) -> Self {\n        match class {\n            Class::ELF32 => %s,\n            Class::ELF64 => %s,\n        }\n    }' % (decode('ELF32'), decode('ELF64')))
+        return '\n    '.join(out)
+
     # ---- one module
     def process_module(self, mod):
         path = os.path.join(self.repo, 'src', mod + '.rs')
@@ -699,6 +746,11 @@ class Extractor:
                 specs = implspecs.get(it.name if it.kind == 'impl' else 'trait ' + it.name, [])
                 for s in specs:
                     self.used_impl_specs.add((mod, s['header']))
+                    if s.get('generated'):
+                        kind, _, arg = s['generated'].partition(':')
+                        if kind != 'abi_layout': raise ExtractError('unknown generator %r' % kind)
+                        pieces.append(('raw', None, '\n' + g(self.gen_abi_impl(arg)) + '\n'))
+                        self.rule('G2')
                     if s.get('add'):
                         pieces.append(('raw', None, '\n' + g(s['add']) + '\n'))
                 is_trait_impl = it.kind == 'impl' and ' for ' in it.name
@@ -775,7 +827,7 @@ class Extractor:
         for m in mods:
             body, mspec = self.process_module(m)
             bu = ['crate::vp::ax::axiom_slice_len_bound'] + list(mspec.get('broadcast', []))
-            chunks.append(('raw', None, 'pub mod %s {\nuse vstd::prelude::*;\nuse vstd::std_specs::iter::IteratorSpec;\nuse crate::vp::*;\nbroadcast use %s;\n' % (m, ', '.join(bu))))
+            chunks.append(('raw', None, 'pub mod %s {\nuse vstd::prelude::*;\nuse vstd::std_specs::iter::IteratorSpec;\nuse crate::vp::*;\nbroadcast use {%s};\n' % (m, ', '.join(bu))))
             if mspec.get('top'):
                 chunks.append(('raw', None, g(mspec['top']) + '\n'))
             chunks.extend(body)
